@@ -597,8 +597,10 @@ def load_vthreads():
 
 def th_durations(T):
     """Named handler durations: short; just below / at / above one period; 2.5, 3, > 10 and > 25 periods."""
+    # ... and a handler that blocks for more than a second (longer than a plausible join / wait timeout;
+    # virtual time is in ns and must stay below 2^31 for TLC)
     return dict(short=1000, half=T // 2, below=T - 1, equal=T, above=T + 1, x2_5=(5 * T) // 2, x3=3 * T,
-                x10=10 * T + T // 2, x25=25 * T + 3)
+                x10=10 * T + T // 2, x25=25 * T + 3, x230=230 * T + 11)
 
 
 def th_phases(d, T):
@@ -648,7 +650,9 @@ def th_finish(script, T):
     need = script.get("t0", 0)
     for op in script["ops"]:
         need += op.get("at", 0) + op.get("dt", 0) + op.get("off", 0) + sum(max(d, T) for d in op.get("durs", [])) + 2 * T
-    script["tail"] = longest + 3 * T
+    # (a handler of more than a second has returned by the time stop() returns, or shortly after a stop()
+    # that gave up on it: 30 periods cover that without doubling the run beyond what 32-bit ns can hold)
+    script["tail"] = min(longest, 30 * T) + 3 * T
     script["limit"] = min(BUDGET, 2 * (need + script["tail"]) + 40 * T)
     return script
 
